@@ -27,7 +27,7 @@ func c01(c *Ctx) {
 		"Caller-buffer effects of Encrypt/Decrypt are decided under C19, nonce freshness under C20, tag checks and framing of Decrypt under C02."
 	c01Envelope(c)
 	c01Sizes(c)
-	narrowingRule(c, "C01.lenwidth", map[string]bool{"aead/aesctrhmac": true, "aead/subtle": true}, 0)
+	narrowingRule(c, "C01.lenwidth", map[string]bool{"aead/aesctrhmac": true, "aead/subtle": true, "internal/aead": true}, 0)
 	c01Suffix(c)
 }
 
